@@ -37,6 +37,12 @@ CLAIMS = {
  "C17": ("Resolve of Scalar, Input, List, NonNull, Arg, InputField, FieldDef, EnumValue, Directive and Object is proved against the introspection table of the statement, one postcondition per meta-field (kind, name, description, fields with and without includeDeprecated, interfaces, ofType, args, type, isDeprecated, deprecationReason, locations, null for the inapplicable fields); Nth/Len of the five list views; GetDirective, isDeprecated, getBoolArg.",
          "Resolve of Interface, Union, Enum, Schema/Root and the __type/__schema entry points are not yet under contract; the completeness direction of Object.fields without deprecated ones is not claimed; wrapper name (\"[T]\", \"T!\") is a recorded known finding pinned by the suite",
          "4 C17"),
+ "C19": ("Registry contracts proved for all registry contents and all lengths: subscribe appends exactly the new subscription; Unsubscribe(id) leaves no matching subscriber, keeps every non-matching one, returns the number matched and calls each removed subscriber's clean-up exactly once and nobody else's; AddEvent sends exactly one message to every matching subscriber and none to the others, returns the number matched, removes exactly the subscribers whose Send failed (re-checking identity) and cleans each of them up exactly once. Ghost counters per subscriber (#send, #sendfail, #unsub) carry the call history; loop invariants over the in-place deletion idiom.",
+         "Match is assumed a pure function of (subscriber, id) during one call; a subscriber is assumed registered at most once; relative order of the kept subscribers and delivery in registration order are not stated; the value sent is the result of resolve(event, subscription field) by construction of the loop body, not a separate postcondition; the all-histories statement follows from these per-operation contracts by induction on the history (not re-proved)",
+         "4 C19"),
+ "C20": ("Lock discipline of the registry proved on subscribe, Unsubscribe, AddEvent and their caller ResolveExecutable: every read and write of Root.subscriptions happens with root.subLock held by the executing thread (guarded-field obligations at each access), no double acquisition, every acquisition released on every return path (also per loop iteration), the resolve walk returns with the set of held mutexes unchanged; Unsubscribe leaves no matching subscriber registered when it returns.",
+         "sequential semantics inside a critical section; linearizability of the two-phase publish and 'at most once per publish' under interleaving are not decided; callbacks (Match/Send/Unsubscribe, user resolvers) are assumed not to call back into the registry",
+         "4 C20"),
 }
 NA = {
  "C16": "relational over orderings/partitions of whole loads: a function contract speaks about one call, and deriving the relation needs a functional grammar specification of the whole single-pass SDL parser (DESIGN.md section 4, C16)",
